@@ -38,7 +38,7 @@ META = {
               "payload (exact length 0..3 per slice, thorough ..6), game-lump flags+version (4, compression bit clear) and "
               "game-lump payload (0..2); header kind x lump x file layout x compressed-set are concrete slices.  h_views: "
               "ordered subsets of <= 2 (quick) / <= 3 (thorough) views inside each of 5 interaction clusters, symbolic "
-              "FACEIDS (2 bytes).",
+              "FACEIDS (2 bytes) and symbolic flags+version of the detail-prop game lump (4 bytes, compression bit clear).",
     "outside": "cross-cluster subsets and subsets larger than 3; maps with more than one face/brush/leaf; the 825 KB sample "
                "BSP (native trace only); LZMA payloads as symbols (lzma is C: compressed lumps carry concrete payloads); the "
                "pakfile view (zipfile is C-backed: PAKFILE is covered as a raw lump only); per-lump reader/writer "
@@ -263,9 +263,9 @@ def _native_selfcheck():
                 bsp.struct = real_st
 
 
-def _games(fl, gv, pay, with_comp):
+def _games(fl, gv, pay, with_comp, dprp_hdr=(0, 0, 4, 0)):
     g = [(b"sprp", b"\0\0", b"\6\0", struct.pack('<iii', 0, 0, 0), False),
-         (b"dprp", b"\0\0", b"\4\0", struct.pack('<iii', 0, 0, 0), False),
+         (b"dprp", list(dprp_hdr[:2]), list(dprp_hdr[2:]), struct.pack('<iii', 0, 0, 0), False),
          (b"xyzw", fl, gv, pay, False)]
     if with_comp:
         g.append((b"cmpr", b"\3\0", b"\2\0", b"compressed game lump payload " * 3, True))
@@ -511,7 +511,7 @@ def _content_equal(env, a, b, what):
     return ba, bb
 
 
-def _views(o0, o1, o2, hid, cluster, kind, depth, deep, witness=False):
+def _views(o0, o1, o2, hid, dph, cluster, kind, depth, deep, witness=False):
     from vf.stubs import bspio
     names = CLUSTERS[cluster]
     none = len(names)
@@ -534,7 +534,9 @@ def _views(o0, o1, o2, hid, cluster, kind, depth, deep, witness=False):
         assume(got not in sel)
         sel.append(got)
     hidc = _cut(hid, 2)
-    games = _games(b"\2\0", b"\5\0", b"opaque", False)
+    dphc = _cut(dph, 4)
+    assume(dphc[0] % 2 == 0)                       # compression bit clear (LZMA payloads stay concrete)
+    games = _games(b"\2\0", b"\5\0", b"opaque", False, dprp_hdr=dphc)
     env = _Env()
     try:
         bsp = env.bsp
@@ -557,14 +559,14 @@ def _views(o0, o1, o2, hid, cluster, kind, depth, deep, witness=False):
         raise Fail("reached")
 
 
-def h_views(o0: int, o1: int, o2: int, hid: bytes, cluster: str, kind: str = "20", depth: int = 2,
+def h_views(o0: int, o1: int, o2: int, hid: bytes, dph: bytes, cluster: str, kind: str = "20", depth: int = 2,
             deep: bool = False) -> None:
-    _views(o0, o1, o2, hid, cluster, kind, depth, deep)
+    _views(o0, o1, o2, hid, dph, cluster, kind, depth, deep)
 
 
-def h_views_w(o0: int, o1: int, o2: int, hid: bytes, cluster: str, kind: str = "20", depth: int = 2,
+def h_views_w(o0: int, o1: int, o2: int, hid: bytes, dph: bytes, cluster: str, kind: str = "20", depth: int = 2,
               deep: bool = False) -> None:
-    _views(o0, o1, o2, hid, cluster, kind, depth, deep, witness=True)
+    _views(o0, o1, o2, hid, dph, cluster, kind, depth, deep, witness=True)
 
 
 # ----------------------------------------------------------------------------------------------------- obligations
@@ -579,6 +581,7 @@ def obligations(tier):
                 sl.append({"kind": kind, "li": li, "n": n, "gn": 1 if n else 0})
     sl += [{"kind": "20", "li": L["LIGHTING_HDR"], "n": 1, "gn": 2, "layout": lay, "comp": c}
            for lay, c in (("reverse", ""), ("gap", ""), ("index", "lump"), ("index", "game"), ("gap", "both"))]
+    sl += [{"kind": "l4d2", "li": L["LIGHTING_HDR"], "n": 1, "gn": 2, "layout": "index", "comp": "both"}]
     if not quick:
         sl += [{"kind": k, "li": L["PAKFILE"], "n": 2, "gn": 2, "layout": lay, "comp": "both"}
                for k in KINDS for lay in ("reverse", "gap")]
